@@ -51,6 +51,14 @@ Definition ref_row_ok (e : string * (list string * list string * list string)) :
 Lemma fixup_visits_all : forallb ref_row_ok ref_slots = true.
 Proof. vm_compute. reflexivity. Qed.
 
+(* for the classes listed in json_ops_confirmed every key's JSON op agrees with the shape extracted from serialize();
+   the remaining classes of json_schemas are listed in json_ops_derived_only *)
+Lemma json_ops_table :
+  forallb (class_shapes_ok json_op_shapes) json_ops_confirmed = true /\
+  str_set_eqb (json_ops_confirmed ++ json_ops_derived_only) (map fst json_schemas) = true /\
+  forallb (fun c => negb (str_mem c json_ops_derived_only)) json_ops_confirmed = true.
+Proof. repeat split; vm_compute; reflexivity. Qed.
+
 Definition jentry_ok (e : string * (op * op * list (list Z * jop))) : bool :=
   ops_match (fst (fst (snd e))) (snd (fst (snd e))) && jschema_ok (snd (snd e)).
 Lemma json_schemas_ok : forallb jentry_ok json_schemas = true.
